@@ -64,6 +64,9 @@ func c07() *core.Check {
 			lvl := 0
 			if tier == "thorough" {
 				lvl = 1
+			} else {
+				// three-atom interactions over the full dictionary already in the quick tier
+				us = append(us, planMix(htmlDomain, []Mix{{Gen: "atoms", Dict: "htmlmid", K: 3}})...)
 			}
 			return append(us, planDecoy(lvl)...)
 		},
